@@ -26,7 +26,7 @@ Fixpoint is_prefix (tol : Qc) (a b : list Qc) : bool :=
   match a, b with [] , _ => true | x :: a', y :: b' => qclose tol x y && is_prefix tol a' b' | _, _ => false end.
 
 (* ---- Qc instance of the MU model (Model/C11Apr.v): exact division, run side by side with pyttb on small inputs *)
-From PV Require Import Model.C14Nvecs Model.C11Apr.
+From PV Require Import Model.C14Nvecs Model.C11Apr Model.C11Sparse.
 Definition qlt (a b : Qc) : bool := negb (qleb b a).
 Definition qmin (x y : Qc) : Qc := if qleb x y then x else y.
 Definition qdivmax (eps x v : Qc) : Qc := x / qmax v eps.
@@ -40,3 +40,15 @@ Definition mu_model_ok (tol eps kappa kappatol stoptol : Qc) (maxinner : nat) (X
   let Kmod := mkK (sw (fst res)) (sA (fst res)) in
   forallb (fun i => qclose tol (qden_k Kobs i) (qden_k Kmod i)) (allsubs (dshape X)) &&
   list_eqb (qclose tol) kkt_obs (snd res) && knonneg Kmod.
+
+(* ---- Qc instance of the sparse-branch Phi (Model/C11Sparse.v calc_phi_sp_code) and of the dense definition, both compared with what
+   pyttb's calculate_pi + calculate_phi return for a sparse holder *)
+Definition qstate (K : ktensor Qc) : state := mkSt (kweights K) (kfactors K) [] [] true.
+Definition qphi_sp (eps : Qc) (S : sparse Qc) (n : nat) (K : ktensor Qc) : list (list Qc) :=
+  calc_phi_sp_code q0 q1 Qcplus Qcmult (qdivmax eps) S n (qstate K).
+Definition qphi_dense (eps : Qc) (X : dense Qc) (n : nat) (K : ktensor Qc) : list (list Qc) :=
+  calc_phi q0 q1 Qcplus Qcmult (qdivmax eps) X n (qstate K).
+Definition phi_sp_ok (tol eps : Qc) (S : sparse Qc) (X : dense Qc) (n : nat) (K : ktensor Qc) (obs_sp obs_dense : list (list Qc)) : bool :=
+  list_eqb (list_eqb (qclose tol)) (qphi_sp eps S n K) obs_sp &&
+  list_eqb (list_eqb (qclose tol)) (qphi_dense eps X n K) obs_dense &&
+  list_eqb (list_eqb Qc_eq_bool) (qphi_sp eps S n K) (qphi_dense eps X n K).
